@@ -183,6 +183,18 @@ CHECKS = {
         "DESIGN.md section 8, C18",
         "Expectations are computed from the spec, never from a first run.",
     ),
+    "C09": (
+        "fault_enumeration",
+        "runtime monitoring: recording cache-backend wrapper + reference LRU + key-injectivity table + deserialisation spies (pickle/hmac/diskcache rebinding); differential cached vs uncached; enumerated disk corruption and torn writes",
+        "Histories of runs share one backend (unbounded / LRU 1-4 / DiskCache) between a sync and an async runner; every cached run "
+        "must equal the uncached one, backend answers must match a reference LRU, no cacheable function runs after a hit, keys are "
+        "injective in (function, arguments by parameter, output names) and served dicts fit the node. For every stored disk entry "
+        "every corruption class and both torn-write states are injected through the storage layer; get() must miss or serve the "
+        "stored value, never raise, and nothing may be unpickled (by hypergraph or by the storage layer) that a genuine set() did "
+        "not write for that key.",
+        "DESIGN.md section 8, C09",
+        "diskcache/sqlite/pickle/hmac are trusted to behave as documented; their use is in scope.",
+    ),
 }
 
 NOT_YET = {}
